@@ -382,7 +382,7 @@ def _shard(args):
     alphabet, operands, depth, last_ops, firsts, mults = args
     m = OpModel(alphabet, operands, mults)
     m.depth = depth
-    m.last_operands = last_ops
+    m.last_operands = m.B.reduced if last_ops else None      # labels depend on the atom alphabet
     acc = Acc()
     d = Dfs(m, acc, depth)
     for lab in firsts:
